@@ -115,6 +115,12 @@ def run(rep, tier):
         plan.append(('estimates, config ball radius 1 incl. P=4, <=3 deviations', [to_cfg(c) for c in ball(1, Ps=(1, 2, 3, 4))], 3))
         plan.append(('direct restart requests, P in 2..4, <=4 requests', [cfg(P=P, adaptive=None, restart_script=True, restarting={'max_restarts': m, 'restart_from_first_step': ff, 'crash_after_max_restarts': cr}) for P in (2, 3, 4) for m in (0, 1, 2) for ff in (False, True) for cr in (True, False)], 4))
         plan.append(('estimates + direct requests together, P=3, <=3 deviations', [cfg(P=3, restart_script=True, restarting={'max_restarts': m}) for m in (1, 2)], 3))
+    sec = []
+    for P, tend in ((3, 'two_and_a_half'), (3, 'far')) + (((4, 'far'), (2, 'far')) if tier == 'thorough' else ()):
+        c = dict(ball(0)[0])
+        c['P'], c['tend'] = P, tend
+        sec.append(to_cfg(c, est_n=4, second_run=0.5))
+    plan.append(('second run() on the same controller after an adaptive run, <=2 deviations over both runs', sec, 2))
     plan.append(('real adaptive runs (no scripted environment): estimator x problem x tolerance x P x limiter', real_cfgs(tier), 0))
     bounds = []
     for label, vs, bound in plan:
